@@ -100,6 +100,7 @@ def opOfJson (j : Json) : Option Op :=
   | "mergeWith" => some (.mergeWith (kvJ j "kv") (optLam2J j "f2") (optLam2J j "g2") (jnat j "n"))
   | "isIterable" => some .isIterable | "defaultIfEmpty" => some (.defaultIfEmpty (valsJ j "vs"))
   | "generate" => some (.generate l (lamOfJson (jget j "l2")) (optLamJ j "l3") (jbool j "b") (jnat j "n"))
+  | "generateManyTake" => some (.generateManyTake l (optLamJ j "l2") (jbool j "b") (jbool j "b2") n)
   | "list" => some .listFn | "flatten" => some .flatten | "toList" => some .toList
   | "listLit" => some (.listLit (valsJ j "vs"))
   | "dict" => some .dictFn | "toDict" => some (.toDict l (optLamJ j "l2"))
